@@ -4,7 +4,9 @@ mod engine;
 mod exp;
 mod gens;
 mod models;
+mod pipeline;
 mod props;
+mod refwit;
 mod rlnh;
 
 use engine::*;
@@ -47,6 +49,9 @@ macro_rules! dispatch {
             "C04" => $f(&props::c04::C04, $($arg),*),
             "C10" => $f(&props::c10::C10, $($arg),*),
             "C03" => $f(&props::c03::C03, $($arg),*),
+            "C13" => $f(&props::c13::C13, $($arg),*),
+            "C05" => $f(&props::c05::C05, $($arg),*),
+            "C01" => $f(&props::c01::C01, $($arg),*),
             _ => {
                 eprintln!("unknown property {}", $id);
                 2
@@ -88,6 +93,11 @@ fn main() {
             let code = dispatch!(id, replay_property, &ctx, &path);
             cleanup_tmp(&ctx);
             std::process::exit(code);
+        }
+        "exp-timing" => {
+            let _ctx = make_ctx("exp", Tier::Quick, false);
+            exp::timing();
+            cleanup_tmp(&_ctx);
         }
         "exp-reopen" => {
             let _ctx = make_ctx("exp", Tier::Quick, false);
